@@ -25,7 +25,8 @@ def check_jobs(ctx, jobs, layers_choices, length):
         if not can_state:
             ops = [op for op in ops if op[0] != 'set_srep']
         debug = r.random() < 0.5
-        outs, log, tape, stack, problems = gsuite.run_ops(env, sname, oname, ops, debug, r.randrange(1 << 30))
+        outs, log, tape, stack, problems = gsuite.run_ops(env, sname, oname, ops, debug, r.randrange(1 << 30),
+                                                                deterministic_obs=desc['obs']['name'] != 'stochastic_raytracing')
         case = {'env': label, 'layers': layers, 'state_repr': sname, 'obs_repr': oname, 'debug': debug,
                 'ops': [f'{k}:{a}' if a is not None else k for k, a in ops]}
         for k, bad in problems:
